@@ -346,6 +346,9 @@ func TestEngineAnte(t *testing.T) {
 					a.data = []byte{0x00}
 				}
 			}
+			if a.unprotected {
+				a.typ = 0 // a Homestead signature exists for legacy transactions only (two perturbations may have been combined)
+			}
 			bz, _ := c.buildEthTx(a)
 			if len(extra) > 0 {
 				dec, err := txCfg.TxDecoder()(bz)
